@@ -17,7 +17,7 @@ Judge(r) ==
   LET op == [op |-> r.op, o |-> r.o, s |-> r.s, c |-> r.c, l |-> r.l, f |-> r.f, scope |-> r.scope] IN
   IF ~Enabled(b, op) THEN No("DRIFT the specification does not allow this operation here: " \o r.op, b)
   ELSE LET b2 == Do(b, op) IN
-       IF r.res # "ok" THEN No("the operation " \o r.op \o " failed with " \o r.res, b2)
+       IF (r.res = "ok") # (b2.res = "ok") THEN No("the operation " \o r.op \o " returned " \o r.res \o " where the specification says " \o b2.res, b2)
        ELSE IF \E x \in Lst : LoggedEvents(r, x) # b2.obs.events[x]
          THEN LET x == CHOOSE x \in Lst : LoggedEvents(r, x) # b2.obs.events[x] IN
               No("listener " \o ToString(x) \o " received " \o ToString(LoggedEvents(r, x)) \o " instead of " \o ToString(b2.obs.events[x])
